@@ -111,7 +111,9 @@ func (s *Script) Compile() (*Compiled, error) {
 	}
 
 	// reduce globals size
-	globals = globals[:symbolTable.MaxSymbols()+1]
+	if n := symbolTable.MaxSymbols() + 1; n < len(globals) {
+		globals = globals[:n]
+	}
 
 	// global symbol names to indexes
 	globalIndexes := make(map[string]int, len(globals))
